@@ -33,6 +33,10 @@ def run(repo, run, tier):
     # self.constants itself, read when it is called; a tuple of arguments captured before the loop keeps the dict a callback has since replaced)
     from .c08 import bracket
     bracket(repo, run, m, rule_id="C07.10")
+    # the event search works on the pieces kept in the private dense-output store also when dense output is OFF (the last pieces only): reset() must replace that store
+    # unconditionally, or the first steps of the next run are searched on the previous run's pieces (spurious / mislocated events)
+    from .c13 import reset_unconditional
+    reset_unconditional(repo, run, rule_id="C07.11")
     from .common import readonly
     readonly(repo, run, "C07.9", DS, ["OdeSystem.events", "OdeSystem.events_dict"], "the event views of the system (events, events_dict)")
 
@@ -421,6 +425,25 @@ def sample_kinds(repo, run, rid, rule_id):
         run.report(rule_id, DS, v.node, "%s discipline: %s" % (v.disc, v.why))
     if n == 0:
         raise AnalysisError("handle_events: no event sample evaluations found")
+    # resolution of the probes: a crossing is classified from samples at root -/+ (step) * eps**p.  The offset must survive the addition to the root: an offset of
+    # step*eps**0.75 is below half an ulp of t_root as soon as |step|/|t| < ~1e-5 (t = 1e4 with steps of 0.05), all samples coincide, neither 'rising' nor 'falling' is
+    # established and a bracketed root is discarded.  At least one probe pair therefore uses the widest offset the code base uses, step*eps**0.5 (resolvable down to
+    # |step|/|t| ~ 1e-8).
+    exps = []
+    for c in [c for c in ast.walk(fn) if isinstance(c, ast.Call) and isinstance(c.func, ast.Subscript) and src(c.func.value) == "ev_f" and c.args and isinstance(c.args[0], ast.BinOp)]:
+        for pw in [x for x in ast.walk(c.args[0]) if isinstance(x, ast.BinOp) and isinstance(x.op, ast.Pow)]:
+            if isinstance(pw.left, ast.Call) and (fname(pw.left) or "").split(".")[-1] in ("epsilon", "tol_epsilon"):
+                try:
+                    exps.append(const_value(pw.right))
+                except ValueError:
+                    pass
+    if exps:
+        ok = min(exps) <= 0.5
+        run.judged(rid, "probe offsets are step * eps**p with p in %s: widest p = %s" % (sorted(set(exps)), min(exps)), ok=ok)
+        if not ok:
+            run.report(rule_id, DS, fn, "every sample that classifies a crossing is taken at root -/+ step*eps**p with p >= %s: for |step|/|t| below about eps**(1-p) (e.g. t ~ 1e4 "
+                       "with steps of 0.05 for p = 0.75) the offsets vanish in the addition to the root, the samples coincide, no direction is established and bracketed "
+                       "crossings are silently dropped; the wide probe at step*eps**0.5 is what covers ordinary long runs" % min(exps), text="probe resolution: widest exponent %s" % min(exps))
 
 
 def sentinel(repo, run, m, rule_id="C07.7"):
